@@ -404,6 +404,10 @@ def check(case):
         fails.append(("trailing-bytes", "%r after the response" % left[:80]))
     if r.status != code:
         fails.append(("status-differs", "parsed %r, set %r" % (r.status, code)))
+    # "that status": an explicitly given reason phrase (also the empty one) is the one on the
+    # status line, up to the line-break sanitising; with no phrase given any phrase is fine
+    if reason is not None and canon_value(r.reason) != canon_value(reason):
+        fails.append(("reason-differs", "parsed %r, set %r" % (r.reason, reason)))
     if r.body != exp_body:
         fails.append(("body-differs", "parsed %r, written %r" % (r.body[:60], exp_body[:60])))
 
